@@ -79,31 +79,21 @@ def refJ : AtomRef → Json
 def srowJ (r : SRow) : Json :=
   Json.mkObj [("terms", listJ (fun (t : AtomRef × Rat) => Json.arr #[refJ t.1, ratJ t.2]) r.terms), ("off", ratJ r.off)]
 
-/-- only the mutable part of the state is reported: rows of elementwise constraints and the memory -/
-def econJ (e : ECon) : Json :=
-  match e.con with
-  | .elem isEq rows => Json.mkObj [("cls", "elem"), ("eq", isEq), ("rows", listJ srowJ rows), ("mem", listJ atomJ e.mem)]
-  | _ => Json.mkObj [("cls", "setmem"), ("mem", listJ atomJ e.mem)]
-
-def asECon (j : Json) : M ECon := do
-  let c ← asCon j
-  let mem ← match optField j "mem" with
-    | none => pure []
-    | some m => asList m fun a => do
-        match ← asAtomRef a with
-        | .nl x => pure x
-        | .var _ => throw "bad memory atom"
-  pure ⟨c, mem⟩
+/-- the mutable part of the state: rows of elementwise constraints -/
+def conStateJ (c : Con) : Json :=
+  match c with
+  | .elem isEq rows => Json.mkObj [("cls", "elem"), ("eq", isEq), ("rows", listJ srowJ rows)]
+  | _ => Json.mkObj [("cls", "setmem")]
 
 def stepH : Handler := fun j => do
-  let cons ← asList (← getField j "cons") asECon
+  let cons ← asList (← getField j "cons") asCon
   let dummy ← getNat j "dummy"
   let vars ← asList (← getField j "vars") asVar
   let (rows, K, cons') ← compileStep cons dummy
   if rows.length ≠ (K.map (·.len)).sum then throw "RuntimeError: K and A disagree on the number of rows" else
   let c := assemble rows K
   let vm ← variableMap c.cols vars
-  pure ((compiledJ c vm).mergeObj (Json.mkObj [("post", listJ econJ cons')]))
+  pure ((compiledJ c vm).mergeObj (Json.mkObj [("post", listJ conStateJ cons')]))
 
 def handlers : List (String × Handler) := [("compile.system", compileH), ("compile.step", stepH)]
 
